@@ -83,6 +83,10 @@ func (fr *Frame) callDynamic(site ssa.Instruction, fv *Term, fval ssa.Value, arg
 	var vals []Value
 	base := st.clone()
 	rest := TTrue
+	// several candidate callees: their outcomes are merged here, so none of them may leave a split result behind
+	savedNoSplit := vc.noSplit
+	vc.noSplit = true
+	defer func() { vc.noSplit = savedNoSplit; vc.pendingAlt = nil }()
 	for _, id := range ids {
 		c := vc.closures[id]
 		cond := Eq(fv, IntLit(id))
@@ -316,6 +320,51 @@ func (vc *VC) execFunction(f *ssa.Function, bindings []Value, args []Value, st *
 	defer func() { vc.stack = vc.stack[:len(vc.stack)-1] }()
 	e := &Edge{To: f.Blocks[0], St: st.clone(), Vals: map[ssa.Value]Value{}}
 	fr.execRegion(nil, []*Edge{e}, nil)
+	// a function that returns the literals true and false on different edges: keep the two groups apart
+	if f.Signature.Results().Len() == 1 && kindOf(f.Signature.Results().At(0).Type()) == "bool" && !vc.noSplit {
+		var tg, fg []*retEdge
+		okSplit := true
+		for _, r := range fr.rets {
+			if r.St == nil || r.St.Reach == TFalse {
+				continue
+			}
+			switch r.Val {
+			case Value(TTrue):
+				tg = append(tg, r)
+			case Value(TFalse):
+				fg = append(fg, r)
+			default:
+				okSplit = false
+			}
+		}
+		if okSplit && len(tg) > 0 && len(fg) > 0 {
+			grp := func(g []*retEdge, val *Term) *retEdge {
+				var ss []*State
+				for _, r := range g {
+					ss = append(ss, r.St)
+				}
+				m := mergeStates(ss)
+				for c := range m.Locals {
+					if _, mine := fr.cells[c.Alloc]; mine {
+						delete(m.Locals, c)
+					}
+				}
+				if ct != nil && hasKind(ct, "leave") {
+					env := map[string]SVal{}
+					for k, v := range fr.specEnv {
+						env[k] = v
+					}
+					bindResults(ct, f.Signature, val, env)
+					fr.ghostCode(ct, "leave", m, env)
+				}
+				return &retEdge{St: m, Val: val}
+			}
+			a, b := grp(tg, TTrue), grp(fg, TFalse)
+			*st = *a.St
+			vc.pendingAlt = b
+			return a.Val
+		}
+	}
 	var sts []*State
 	for _, r := range fr.rets {
 		sts = append(sts, r.St)
@@ -332,15 +381,23 @@ func (vc *VC) execFunction(f *ssa.Function, bindings []Value, args []Value, st *
 		return zeroValue(f.Signature.Results())
 	}
 	var acc Value
-	for i := len(fr.rets) - 1; i >= 0; i-- {
-		r := fr.rets[i]
-		if r.St.Reach == TFalse {
-			continue
+	var liveRets []*retEdge
+	for _, r := range fr.rets {
+		if r.St != nil && r.St.Reach != TFalse {
+			liveRets = append(liveRets, r)
 		}
+	}
+	var lr []*Term
+	for _, r := range liveRets {
+		lr = append(lr, r.St.Reach)
+	}
+	rel := relConds(lr)
+	for i := len(liveRets) - 1; i >= 0; i-- {
+		r := liveRets[i]
 		if acc == nil {
 			acc = r.Val
 		} else {
-			acc = iteValue(r.St.Reach, r.Val, acc)
+			acc = iteValue(rel[i], r.Val, acc)
 		}
 	}
 	// drop locals of the finished frame
@@ -577,7 +634,7 @@ func (fr *Frame) havocAssigns(ct *Contract, st *State) {
 			}
 		case a == "fresh":
 			for k, h := range st.Heap {
-				st.Heap[k] = HavocAbove(h, vc.allocN, VarB(freshName(k+"@call"), h.S, vc.allocN+1))
+				st.Heap[k] = HavocAbove(h, vc.allocN, fr.calleeArray(ct, k+"@call", h.S))
 			}
 		case strings.HasPrefix(a, "obj:"):
 			st.Ghost["msgver"] = Add(st.ghost(vc, "msgver"), IntLit(1))
@@ -606,9 +663,35 @@ func (fr *Frame) havocAssigns(ct *Contract, st *State) {
 				}
 				continue
 			}
+			// only the arrays that hold cells of this object's own type can contain cells of its allocation family
+			var objKeys map[string]bool
+			var ot types.Type
+			switch x := v.V.(type) {
+			case *Term:
+				ot = v.T
+			case IfaceV:
+				if x.Tag.Op == "int" {
+					ot = typeTagTypes[x.Tag.Int]
+				}
+			}
+			if ot != nil {
+				if pt, ok := ot.Underlying().(*types.Pointer); ok && kindOf(pt.Elem()) == "struct" {
+					objKeys = map[string]bool{}
+					fr.keysOfType(pt.Elem(), objKeys)
+				}
+			}
 			for k, h := range st.Heap {
-				nv := VarB(freshName(k+"@obj"), h.S, vc.allocN+1)
+				if objKeys != nil && !objKeys[k] {
+					continue
+				}
+				nv := fr.calleeArray(ct, k+"@obj", h.S)
 				st.Heap[k] = HavocFam(h, lo, nv)
+			}
+			for k := range objKeys {
+				if _, have := st.Heap[k]; !have {
+					h := st.heapGet(k)
+					st.Heap[k] = HavocFam(h, lo, fr.calleeArray(ct, k+"@obj", h.S))
+				}
 			}
 		case strings.HasPrefix(a, "C:") || strings.HasPrefix(a, "M:"):
 			h := st.heapGet(a)
@@ -972,4 +1055,15 @@ func bindResults(ct *Contract, sig *types.Signature, res Value, env map[string]S
 			env[rn[i]] = SVal{V: v, T: sig.Results().At(i).Type()}
 		}
 	}
+}
+
+// calleeArray: the unknown content a callee leaves in memory it fills. What a LIBRARY callee (decoder, storage) links in is
+// nil, its own fresh allocations or objects of its own from before this request - never an object the calling function
+// allocated itself (assumption A-XML / A-STORAGE: "the decoded tree is fresh", "storage does not keep our objects").
+func (fr *Frame) calleeArray(ct *Contract, name string, s *Sort) *Term {
+	n := fr.vc.allocN
+	if ct.Lib && n > 1 {
+		return VarBGap(freshName(name), s, n+1, 1, n-1)
+	}
+	return VarB(freshName(name), s, n+1)
 }
